@@ -18,7 +18,11 @@ LEAN_MODULES = ["KrroodVerif.Props.C14"]
 THEOREMS = [
     "KrroodVerif.SG.C14_model_eq_spec",
     "KrroodVerif.SG.C14_fresh_equiv",
+    "KrroodVerif.SG.C14_fresh_equiv_dead",
+    "KrroodVerif.SG.C14_current",
+    "KrroodVerif.SG.C14_no_reuse_no_stale",
     "KrroodVerif.SG.C14_partial",
+    "KrroodVerif.SG.C14_partial_precise",
     "KrroodVerif.SG.C14_cex_recycled",
     "KrroodVerif.SG.C14_cex_dead_source",
 ]
@@ -45,7 +49,7 @@ RULE = ("exhaustive grid of garbage prefixes (creation order x relation x drop o
 
 
 def budget(tier: str) -> int:
-    return 3000 if tier == "quick" else 30000
+    return 3000 if tier == "quick" else 80000
 
 
 def _case(ops, tags, origin):
